@@ -260,12 +260,24 @@ pub(crate) fn read<V: MultiClassVisitor>(reader: &mut impl ClassRead, visitor: V
 			reader.with_pos(fields_start, |reader| {
 				let fields_count = reader.read_u16()?;
 				for _ in 0..fields_count {
+					if !interests.fields {
+						// access_flags, name_index, descriptor_index
+						reader.skip(2 + 2 + 2)?;
+						skip_attributes(reader)?;
+						continue;
+					}
 					class_visitor = read_field(reader, class_visitor, pool)
 						.with_context(|| anyhow!("failed to read field of class {this_class:?}"))?;
 				}
 
 				let methods_count = reader.read_u16()?;
 				for _ in 0..methods_count {
+					if !interests.methods {
+						// access_flags, name_index, descriptor_index
+						reader.skip(2 + 2 + 2)?;
+						skip_attributes(reader)?;
+						continue;
+					}
 					class_visitor = read_method(reader, class_visitor, pool, &bootstrap_methods)
 						.with_context(|| anyhow!("failed to read method of class {this_class:?}"))?;
 				}
